@@ -9,8 +9,7 @@
     * every constant index `typs[k]` in a plugin is dominated by length checks that make it safe, for every
       argument count the user can write (the shape of the repaired finding F3);
     * the list of explicit `panic(` calls, and for each of them either a proof that it is unreachable or the
-      exact condition under which it is reached (with a reachable witness: a real defect, reported by the
-      black-box part of the check).
+      exact condition under which it is reached.
   Totality: every model function is a total Lean function (structural recursion), so "the model terminates"
   holds by construction; it is the black-box stream that looks for hangs of the real code.
 
@@ -80,7 +79,6 @@ example : (⟨"plugin/mem/mem.go:(*gen).Add", 0, .not (.ne 1)⟩ : IndexUse).saf
 theorem panic_sites_expected : Generated.panicSites =
     ["derive/find.go:newCall:unreachable, finder has already eliminat",
      "derive/generate.go:newPackage:unreachable: function names cannot be ch",
-     "derive/printer.go:(*printer).NewImport:non unique fullpath: ",
      "derive/printer.go:(*printer).Out:bug in code generator: unindenting more ",
      "derive/typesmap.go:(*typesMap).Generating:generating unknown %s for types: %v"] := by decide
 
@@ -126,32 +124,38 @@ example :
     setFuncName (fun a b => a == b) (fun a b => a == b) false true (fun _ _ => "x")
       (⟨[[1]], ["deriveEqual"]⟩ : TM Nat) "deriveEqualAgain" [1] = .ok "deriveEqual" ⟨[[1]], ["deriveEqual"]⟩ := by decide
 
-/-! 3. printer.go:NewImport — REACHABLE. Exactly when, and a sufficient condition for absence. -/
+/-! 3. printer.go:NewImport — the former `panic("non unique fullpath")` (reached by a package NAMED like
+another import's full path: found by the black-box part of this check, family aliasclash) is gone since fix
+81ad18a: a taken full-path alias is followed by numbered ones. What remains to show is that the new search
+loop terminates and the closure always returns. -/
 
-theorem import_alias_panic_iff (unv full : String → String) (t : Table) (r : Req) :
-    newImport unv full t r = none ↔
-      (∃ p, lookup r.name t = some p ∧ p ≠ unv r.path) ∧
-      (∃ p2, lookup (full (unv r.path)) t = some p2 ∧ p2 ≠ unv r.path) :=
-  newImport_panics_iff unv full t r
+/-- NewImport returns for every table and request: among len(table)+1 pairwise different candidate aliases
+one is unbound (pigeonhole), so the loop `for i := 2; ; i++` ends. `SfxInj`: the numbered aliases of one full
+path are pairwise different (strconv.Itoa is injective). -/
+theorem import_alias_always_returns {unv full : String → String} {sfx : String → Nat → String}
+    (hinj : SfxInj sfx) (t : Table) (r : Req) : newImport unv full sfx t r ≠ none :=
+  newImport_total hinj t r
 
-/-- No panic when, on the import paths in play, makeFullpath is injective and no package is NAMED like the
-full path of another one. -/
-theorem import_alias_no_panic {unv full nm : String → String} {rs : List Req} {t : Table} {as : List String}
-    {paths : List String} {r : Req}
-    (hc : ∀ r ∈ rs, Consistent unv nm r) (hrun : run unv full [] rs = some (t, as))
-    (hnc : NoClash full nm paths) (hp : unv r.path ∈ paths) (ht : ∀ p ∈ vals t, p ∈ paths) :
-    newImport unv full t r ≠ none :=
-  newImport_no_panic (run_inv (inv_nil full nm) hc hrun) hnc hp ht
+theorem import_sequence_always_returns {unv full : String → String} {sfx : String → Nat → String}
+    (hinj : SfxInj sfx) (rs : List Req) : run unv full sfx [] rs ≠ none :=
+  run_total hinj rs []
 
-/-- The side condition is needed: a user package NAMED `strings` (at path x/v2) imported next to the real
-"strings" reaches the panic. The black-box part of the check reproduces exactly this on the real binary
-(family aliasclash): a genuine defect. -/
-theorem import_alias_panic_witness :
-    run id id [] [⟨"strings", "x/v2"⟩, ⟨"strings", "strings"⟩] = none := by decide
+/-- and the result keeps "distinct aliases, one alias per path" WITHOUT any side condition on the names -/
+theorem import_table_invariant_unconditional {unv full nm : String → String} {sfx : String → Nat → String}
+    {rs : List Req} {t : Table} {as : List String} (hc : ∀ r ∈ rs, Consistent unv nm r)
+    (hrun : run unv full sfx [] rs = some (t, as)) :
+    (keys t).Nodup ∧ ∀ a b p, (a, p) ∈ t → (b, p) ∈ t → a = b := by
+  have hI := run_inv (inv_nil full nm sfx) hc hrun
+  exact ⟨hI.keysNodup, fun a b p ha hb => hI.vals_unique ha hb⟩
 
-/-- non-vacuity of `import_alias_no_panic`: two packages named b, no clash, third request does not panic -/
-example : newImport id (fun p => if p = "y/b" then "y_b" else p) [("b", "x/b")] ⟨"b", "y/b"⟩ =
-    some ([("b", "x/b"), ("y_b", "y/b")], "y_b") := by decide
+/-- the input that used to panic: a user package NAMED `strings` (path x/v2) next to the real "strings" -/
+def exSfx (fp : String) : Nat → String
+  | 0 => fp
+  | 1 => if fp = "strings" then "strings_2" else "?"
+  | _ => "?"
+
+example : run id id exSfx [] [⟨"strings", "x/v2"⟩, ⟨"strings", "strings"⟩, ⟨"strings", "strings"⟩] =
+    some ([("strings", "x/v2"), ("strings_2", "strings")], ["strings", "strings_2", "strings_2"]) := by decide
 
 /-! 4. printer.go:Out — `if len(p.indent) > 0 { … } else { panic }`: unreachable iff every emitter calls Out
 no more often than In on every prefix of its execution. Not proved for the 33 emitters (tie: every corpus of
